@@ -428,6 +428,11 @@ func (lb *LoadBalancer) AddBackend(backendCfg config.BackendConfig) error {
 	if err != nil {
 		return err
 	}
+	// url.Parse accepts almost anything ("localhost:8081" has scheme "localhost"): only an
+	// http(s) URL with a host can be proxied to
+	if (backendURL.Scheme != "http" && backendURL.Scheme != "https") || backendURL.Host == "" {
+		return fmt.Errorf("backend %s: address %q must be an http:// or https:// URL with a host", backendCfg.Name, backendCfg.Address)
+	}
 
 	// Create a reverse proxy for this backend with optimized transport
 	proxy := httputil.NewSingleHostReverseProxy(backendURL)
